@@ -482,9 +482,59 @@ fn scheme_transport(fields: FieldList, entry: Entry, mutation: Mutation, plan_ha
                     format!("sent [{}] got [{}]", describe_fields(&want), describe_fields(&got)),
                 ));
             }
-            Ok(())
+            read_scheme_usable(&s, &class)
         }
     }
+}
+
+/// A scheme that came out of a deserializer is a scheme like any other: what it enumerates is what a lookup by name
+/// finds, it writes itself out as what it enumerates, and a context over it takes and returns a value of a field's type.
+fn read_scheme_usable(s: &Scheme, class: &str) -> Result<(), Violation> {
+    use wirefilter::GetType;
+    let listed = fields_of(s);
+    if s.field_count() != listed.len() {
+        return Err(v("scheme-roundtrip-differs", format!("{class}/use"), format!("field_count() {} but {} fields enumerated", s.field_count(), listed.len())));
+    }
+    for (i, (name, ty, optional)) in listed.iter().enumerate() {
+        match s.get_field(name) {
+            Ok(f) if f.index() == i && f.name() == name && MType::from_type(f.get_type()) == *ty && f.optional() == *optional => {}
+            other => {
+                return Err(v(
+                    "scheme-roundtrip-differs",
+                    format!("{class}/use"),
+                    format!("field #{i} {name:?}: {} as enumerated, but lookup by name gives {other:?}", ty.short()),
+                ));
+            }
+        }
+    }
+    let again = catch_unwind(AssertUnwindSafe(|| serde_json::to_string(s).map_err(|e| e.to_string())))
+        .map_err(|p| v("scheme-serialize-panic", format!("{class}/use"), kernel::panic_message(&*p)))?
+        .map_err(|e| v("scheme-serialize", format!("{class}/use"), e))?;
+    let rebuilt = serde_json::to_string(&build_scheme(&listed)).map_err(|e| v("scheme-serialize", format!("{class}/use"), e.to_string()))?;
+    if again != rebuilt {
+        return Err(v("scheme-roundtrip-differs", format!("{class}/use"), format!("the read scheme writes itself as {again}, a scheme built from what it enumerates as {rebuilt}")));
+    }
+    if !listed.is_empty() {
+        let i = choose(listed.len(), "use.field");
+        let (name, ty, _) = &listed[i];
+        let val = crate::model::gen_value(ty, 2);
+        let r = catch_unwind(AssertUnwindSafe(|| {
+            let mut ctx = wirefilter::ExecutionContext::<()>::new(s);
+            let f = s.get_field(name).unwrap();
+            let set = ctx.set_field_value(f, val.to_lhs().unwrap()).map(|_| ()).map_err(|e| e.to_string());
+            let back = ctx.get_field_value(f).map(|v| crate::model::MValue::from_lhs(v));
+            (set, back)
+        }))
+        .map_err(|p| v("scheme-roundtrip-differs", format!("{class}/use"), format!("a context over the read scheme panicked: {}", kernel::panic_message(&*p))))?;
+        if r.0.is_err() || r.1.as_ref() != Some(&val) {
+            return Err(v(
+                "scheme-roundtrip-differs",
+                format!("{class}/use"),
+                format!("field {name:?}: {}: setting {val:?} on a context over the read scheme gave {:?}, reading it back {:?}", ty.short(), r.0, r.1),
+            ));
+        }
+    }
+    Ok(())
 }
 
 fn mutation_class(m: Mutation) -> &'static str {
